@@ -17,6 +17,10 @@ CLAIMED = {
             "Static, thin but pointed: both composite-key encoders feed (checked big-endian u16 length, bytes, one zero byte) per component in that order and the value only for single keys; every tail byte of the Murmur3 finaliser is sign-extended through i8; the six incompressible constants and the rotation counts equal MurmurHash3_x64_128; Token::new maps i64::MIN to i64::MAX and finish() returns through it; key components are placed by partition-key position and fetched by bind-marker index, and the response parser numbers the partition-key positions in wire order before anything is sorted. The values hash_16_bytes leaves in h1 / h2, fmix's result and rotl64's result are compared as TERMS over the inputs (value numbering of the straight-line MIR, helpers and closures expanded) with the reference MurmurHash3_x64_128 expressions: any reordering, wrong constant or wrong operator in the block step or finaliser is reported. The tail handling, buffering across chunks and the composite-key framing beyond the clauses above stay structural; equality of outputs for all inputs is not established by evaluation.",
             "Trusts rustc MIR; reference constants transcribed by hand.",
             "DESIGN.md §3 C03"),
+    "C04": ("feasible-path cut rules and edge-decided facts on the NetworkTopologyStrategy walker, field-sensitive def-use slices for how the walkers / the precomputation / the lookups are armed, dataflow regions for the lookup guards, sibling agreement between the views of a replica set",
+            "Static, structural clauses only - equality of the computed node lists with the servers' placement over all rings is a statement about data and is NOT decided. Decided: the NTS walker hands out a node only where its rack is unused (and records the rack) or a repeat is left (and spends it), counts every node against min(RF, unique nodes of the datacenter), is armed with RF saturating_sub rack count, and walks the distinct nodes of the datacenter ring from the token; the SimpleStrategy walker takes min(RF, unique nodes) distinct nodes of the ring walk from the token; the precomputation obtains every list from those two walkers for the ring token it files the list under, cuts the compressed per-datacenter ring at the rack count (..=rack_count / rack_count+1..), computes it for the largest such RF and remembers that RF; lookups use the compressed ring only where its RF covers the request, the per-RF ring under the requested RF, and hand out the first min(len, RF) nodes; the locator asks the walker for the same (token, datacenter, RF) it asked the table for, only where the table answered None; the ring walk starts at the first member with token >= the requested one and wraps once; every FilteredSimple view applies the same datacenter test; the chained-NTS iteration does not stop at a datacenter without replicas; every chained-NTS view asks each datacenter for its own RF.",
+            "Trusts rustc MIR, itertools::unique; the placement rules are transcribed from the property text.",
+            "DESIGN.md §3 C04"),
     "C05": ("CFG cut rules for the failover gates, dataflow regions on the statement type + call-graph reachability for randomness, def-use shape of the iterator composition, call-graph reachability of every selection predicate",
             "Static, thin: every selection from the whole cluster in pick()/fallback() is reachable only through the true outcome of is_datacenter_failover_possible or `no preferred DC`; the LWT arms never reach shuffling/random choice and ask for the deterministic order; fallback() de-duplicates exactly once, as the last step, and returns that iterator; every predicate handed to a selector in pick(), fallback() and the DefaultPolicy helpers they call consults is_enabled / is_alive / pick_predicate (or the predicate the helper was given); in pick() no liveness-restricted selection is attempted after one that accepts down nodes, and in fallback() no liveness-filtered group is chained after a group that may contain down nodes (live before down). Completeness and the order among live groups are properties of iterator contents and are not decided.",
             "Trusts rustc MIR and itertools::unique_by semantics.",
@@ -117,7 +121,6 @@ ROUND5 = {
 }
 
 NOT_APPLICABLE = {
-    "C04": "equality of computed replica lists over all rings/strategies: no structural clause that is a meaningful necessary condition; needs evaluation (different technique family)",
 }
 
 ALL = ["C%02d" % i for i in range(1, 21)]
